@@ -212,6 +212,32 @@ theorem gen_shake128_inc_squeeze_eq_model (F : Fips202.State → Fips202.State) 
   SqiProofs.SpongeGen.inc_squeeze_eq F fuel 168 (by decide) st hp h hoff outlen i0 hl hf
 
 
+/-- `shake256_absorb` / `shake128_absorb` as re-extracted (fresh 25-lane allocation with arbitrary contents, then
+    `keccak_absorb(state->ctx, RATE, input, inlen, 0x1F)`) = the model `keccakAbsorb` at rate 136 / 168, domain byte 0x1F -/
+theorem gen_shake_absorb_eq_model (F : Fips202.State → Fips202.State) (fuel : Nat) (m : List UInt8)
+    (s0 : Fips202.State) (t0 : List UInt8) (i0 : Nat) (ht : t0.length = 200) (hf : m.length + 200 < fuel) :
+    (∃ v', SqiGen.Sponge.shake256_absorb.run F fuel s0 m m.length i0 t0 = some v' ∧ v'.s = keccakAbsorb F 136 m 0x1F) ∧
+    (∃ v', SqiGen.Sponge.shake128_absorb.run F fuel s0 m m.length i0 t0 = some v' ∧ v'.s = keccakAbsorb F 168 m 0x1F) :=
+  ⟨SqiProofs.SpongeGen.keccak_absorb_eq F fuel 136 m 0x1F s0 t0 i0 ht (by decide) (by decide) hf,
+   SqiProofs.SpongeGen.keccak_absorb_eq F fuel 168 m 0x1F s0 t0 i0 ht (by decide) (by decide) hf⟩
+
+/-- `shake256_squeezeblocks(output, nblocks, state)` as re-extracted = the model `squeezeBlocksC` at rate 136 -/
+theorem gen_shake256_squeezeblocks_eq_model (F : Fips202.State → Fips202.State) (fuel : Nat)
+    (h : List UInt8) (hoff nblocks i0 : Nat) (s : Fips202.State) (hl : hoff + nblocks * 136 ≤ h.length)
+    (hf : 136 ≤ fuel) (hn : nblocks ≤ fuel) :
+    ∃ v', SqiGen.Sponge.shake256_squeezeblocks.run F fuel h hoff nblocks s i0 = some v' ∧
+      SqiProofs.SpongeGen.Written h v'.h hoff (nblocks * 136) (squeezeBlocksC F 136 nblocks s).1 ∧
+      v'.s = (squeezeBlocksC F 136 nblocks s).2 :=
+  SqiProofs.SpongeGen.squeezeblocks_eq F fuel 136 (by decide) hf nblocks fuel ⟨h, hoff, nblocks, s, 136, i0⟩ rfl rfl hl hn
+
+theorem gen_shake128_squeezeblocks_eq_model (F : Fips202.State → Fips202.State) (fuel : Nat)
+    (h : List UInt8) (hoff nblocks i0 : Nat) (s : Fips202.State) (hl : hoff + nblocks * 168 ≤ h.length)
+    (hf : 168 ≤ fuel) (hn : nblocks ≤ fuel) :
+    ∃ v', SqiGen.Sponge.shake128_squeezeblocks.run F fuel h hoff nblocks s i0 = some v' ∧
+      SqiProofs.SpongeGen.Written h v'.h hoff (nblocks * 168) (squeezeBlocksC F 168 nblocks s).1 ∧
+      v'.s = (squeezeBlocksC F 168 nblocks s).2 :=
+  SqiProofs.SpongeGen.squeezeblocks_eq F fuel 168 (by decide) hf nblocks fuel ⟨h, hoff, nblocks, s, 168, i0⟩ rfl rfl hl hn
+
 theorem genF_eq : SqiGen.Keccak.keccakF = Fips202.keccakF := funext keccakF_gen_eq_spec
 
 /-- `shake256_eq_spec`: the model of `SHAKE256` / `shake256` (one-shot: keccak_absorb, whole blocks, tail through a
